@@ -1412,3 +1412,49 @@ func (g *Gen) emitReplace(from string, orig, att []byte, burnShaped bool) {
 			set("newBody", hx(g.randBytes(g.pick(200)))).set("newCaller", hx(caller)).set("ecr", ecrEntries(orig, att)))
 	}
 }
+
+// ---------------------------------------------------------------------------------------------
+// witness: the minimal histories of the defects found so far (fixed ones and known findings); their op files
+// are committed under /verif/corpus and run first on every check.
+
+func init() { scenarios["witness"] = scnWitness }
+
+func scnWitness(g *Gen, budget int, arg string) {
+	switch arg {
+	case "C17-pending-owner":
+		g.initStandard(2, 1)
+		g.tx("UpdateOwner", newKV().set("from", hs(g.acct[0])).set("new", hs(g.acct[4])))
+		g.exportAndReimport()
+		g.tx("AcceptOwner", newKV().set("from", hs(g.acct[4])))
+	case "C17-duplicate-token-pairs":
+		g.config()
+		sp := g.standardGenesis(1, 1)
+		sp.pairs = append(sp.pairs, fmt.Sprintf("%d:%x:%s", 0, token(0), hs("other")))
+		g.emit(Op{Kind: "genesis-validate", KV: sp.kv()})
+		sp2 := g.standardGenesis(1, 1)
+		sp2.used = []string{"1:5", "1:5"}
+		g.emit(Op{Kind: "genesis-validate", KV: sp2.kv()})
+	case "C20-paginate-reverse":
+		g.initStandard(2, 1)
+		g.emit(Op{Kind: "query", Sub: "Attesters", KV: newKV().set("key", "ff").set("limit", "1").set("reverse", "1")})
+		g.emit(Op{Kind: "query", Sub: "UsedNonces", KV: newKV().set("key", "00").set("limit", "1").set("reverse", "1")})
+		g.emit(Op{Kind: "query", Sub: "RemoteTokenMessengers", KV: newKV().set("key", hx([]byte{0, 0, 0, 3})).set("limit", "1").set("reverse", "1")})
+	case "C20-fixed":
+		g.initStandard(2, 1)
+		_, kv := g.opDeposit(g.acct[1], "-", false)
+		g.tx("DepositForBurn", kv)
+		_, kv = g.opDeposit(g.acct[1], "-", true)
+		g.tx("DepositForBurnWithCaller", kv)
+		_, kv = g.opDeposit(g.acct[1], "5", false)
+		g.tx("DepositForBurn", kv.set("burnToken", hs("uuſdc")))
+		g.emit(Op{Kind: "verify", KV: newKV().set("message", "00").set("attestation", "00000000").set("attesters", hs(g.pubHex[0])).set("threshold", "66076420").set("ecr", "-")})
+		g.emit(Op{Kind: "cli-parse", KV: newKV().set("s", "")})
+		g.emit(Op{Kind: "cli-parse", KV: newKV().set("s", hs("0"))})
+		g.emit(Op{Kind: "cli-parse", KV: newKV().set("s", hs("x"))})
+	case "C06-replace-event-token":
+		g.initStandard(2, 1)
+		_, kv := g.opDeposit(g.acct[1], "77", false)
+		g.tx("DepositForBurn", kv)
+		g.validReplace(true)
+	}
+}
